@@ -541,7 +541,7 @@ Fixpoint bracket_match (key : N) (stack : list (N * nat * nat)) : option (nat * 
   end.
 
 (* one level run; returns (stack, pairs, stopped) *)
-Fixpoint bd16_run (legacy : bool) (pc : list bclass) (run_index start : nat) (cis : list (nat * N))
+Fixpoint bd16_run (legacy : bool) (oc pc : list bclass) (run_index start : nat) (cis : list (nat * N))
          (stack : list (N * nat * nat)) (pairs : list bracket_pair)
   : res (list (N * nat * nat) * list bracket_pair * bool) :=
   match cis with
@@ -549,33 +549,37 @@ Fixpoint bd16_run (legacy : bool) (pc : list bclass) (run_index start : nat) (ci
   | (i, ch) :: rest =>
     let actual := start + i in
     c <- get 524 pc actual ;;
-    if negb (c =c ON) then bd16_run legacy pc run_index start rest stack pairs else
+    if negb (c =c ON) then bd16_run legacy oc pc run_index start rest stack pairs else
+    (* repaired (D9): a character removed by X9 takes no part in BD16 even when a W rule rewrote its
+       working class to ON *)
+    o <- get 530 oc actual ;;
+    if removed_by_x9 o && negb legacy then bd16_run legacy oc pc run_index start rest stack pairs else
     match ds_bracket ds ch with
-    | None => bd16_run legacy pc run_index start rest stack pairs
+    | None => bd16_run legacy oc pc run_index start rest stack pairs
     | Some (opening, is_open) =>
       if is_open then
         if bracket_limit <=? length stack then Ok (stack, pairs, true)     (* break *)
-        else bd16_run legacy pc run_index start rest ((opening, actual, run_index) :: stack) pairs
+        else bd16_run legacy oc pc run_index start rest ((opening, actual, run_index) :: stack) pairs
       else
         match bracket_match opening stack with
         | Some (pos, ri, below) =>
-          bd16_run legacy pc run_index start rest below
+          bd16_run legacy oc pc run_index start rest below
                    (pairs ++ [{| bp_start := pos; bp_end := actual;
                                  bp_start_run := ri; bp_end_run := run_index |}])
-        | None => bd16_run legacy pc run_index start rest stack pairs
+        | None => bd16_run legacy oc pc run_index start rest stack pairs
         end
     end
   end.
 
-Fixpoint bd16_runs (legacy : bool) (text : list N) (pc : list bclass) (run_index : nat) (runs : list run)
+Fixpoint bd16_runs (legacy : bool) (text : list N) (oc pc : list bclass) (run_index : nat) (runs : list run)
          (stack : list (N * nat * nat)) (pairs : list bracket_pair) : res (list bracket_pair) :=
   match runs with
   | [] => Ok pairs
   | (s, en) :: rest =>
     sub <- t_subrange 517 e text s en ;;
-    '(stack', pairs', stopped) <- bd16_run legacy pc run_index s (t_char_indices e sub) stack pairs ;;
+    '(stack', pairs', stopped) <- bd16_run legacy oc pc run_index s (t_char_indices e sub) stack pairs ;;
     if stopped && negb legacy then Ok pairs'                 (* repaired: break 'sequence *)
-    else bd16_runs legacy text pc (S run_index) rest stack' pairs'
+    else bd16_runs legacy text oc pc (S run_index) rest stack' pairs'
   end.
 
 (* stable sort_by_key(|r| r.start) *)
@@ -587,9 +591,9 @@ Fixpoint insert_pair (p : bracket_pair) (l : list bracket_pair) : list bracket_p
 Definition sort_pairs (l : list bracket_pair) : list bracket_pair :=
   fold_left (fun acc p => insert_pair p acc) l [].
 
-Definition identify_bracket_pairs_gen (legacy : bool) (text : list N) (sq : irs) (pc : list bclass)
+Definition identify_bracket_pairs_gen (legacy : bool) (text : list N) (sq : irs) (oc pc : list bclass)
   : res (list bracket_pair) :=
-  pairs <- bd16_runs legacy text pc 0 (irs_runs sq) [] [] ;;
+  pairs <- bd16_runs legacy text oc pc 0 (irs_runs sq) [] [] ;;
   Ok (sort_pairs pairs).
 Definition identify_bracket_pairs := identify_bracket_pairs_gen false.
 
@@ -715,7 +719,7 @@ Definition resolve_neutral_gen (legacy : bool) (text : list N) (sq : irs) (level
     l0 <- get 272 levels (fst r0) ;;
     let ecls := level_class l0 in
     let not_e := if ecls =c L then R else L in
-    pairs <- identify_bracket_pairs_gen legacy text sq pc ;;
+    pairs <- identify_bracket_pairs_gen legacy text sq oc pc ;;
     pc <- n0_pairs (if legacy then iter_backwards_from_legacy else iter_backwards_from)
                    text sq oc ecls not_e pc pairs ;;
     let idxs := flat_map run_range (irs_runs sq) in
